@@ -287,6 +287,11 @@ func (blockchain *Blockchain) verify(lastHostBlocks []*ledger.Block, neighborBlo
 	} else if len(oldHostBlocks) > 0 && (len(neighborBlocks) == 0 || lastHostBlocks[0].PreviousHash() != neighborBlocks[0].PreviousHash()) {
 		return nil, errors.New("neighbor's blockchain is a fork")
 	}
+	for _, neighborBlock := range neighborBlocks {
+		if neighborBlock == nil {
+			return nil, errors.New("neighbor's blockchain contains a null block")
+		}
+	}
 	neighborUtxosPool := blockchain.utxosManager.Copy()
 	neighborRegistry := blockchain.registry.Copy()
 	if len(oldHostBlocks) == 0 {
